@@ -277,6 +277,9 @@ theorem tie_newLockCalls : newLockCalls = ["stringx.Randn"] := by decide
 theorem tie_scriptRunCtx :
     scriptRunCtxCalls = ["getRedis", "script.Run(ctx, conn, keys, args...).Result", "script.Run"] := by decide
 
+/-- the two package-level scripts are built by `NewScript`, which hands the text unchanged to go-redis -/
+theorem tie_newScript : newScriptBody = ["return red.NewScript(script)"] := by decide
+
 /-! ### the ids: `stringx.Randn(16)` -/
 
 /-- the alphabet has 62 different characters; an index is 6 bits of the source and is used only if it is
